@@ -30,6 +30,8 @@ def gen_team_name(rng, forbid=()):
             n = rng.randint(1, 4)
             name = ''.join(rng.choice(UNICODE_BITS + list('abc XY')) for _ in range(n)).strip() \
                 or 'Ü'
+        if rng.random() < 0.02 and '' not in forbid:
+            return ''           # the empty name is a name too
         if rng.random() < 0.04:
             # a very long name (the protocol sets no limit)
             name = ''.join(rng.choice(TEAM_ALPHABET) for _ in range(rng.randint(60, 300))).strip() \
@@ -268,6 +270,11 @@ def gen_s1(rng, nboards=None, table=None):
             nboards = rng.randint(5, 14)
             long_session = True
     boards = [gen_board(rng, i) for i in range(nboards)]
+    if nboards >= 2 and rng.random() < 0.08:
+        # a board that is played twice in one session (a replayed deal): same deal, dealer,
+        # vulnerability, id and table, at a random earlier position and again at the end
+        import copy as _copy
+        boards[-1] = _copy.deepcopy(boards[rng.randrange(nboards - 1)])
     ns = gen_team_name(rng)
     ew = gen_team_name(rng) if rng.random() < 0.9 else ns
     if table is None:
